@@ -1188,3 +1188,88 @@ def gen_jitenc(src_dir):
         out.append("Definition gen_%s (mem : list Z) %s: res (list Z) :=\n  %s.\n\n"
                    % (fn, ''.join('(%s : Z) ' % coqname(n) for n, _ in ps), term))
     return ''.join(out)
+
+
+# ------------------------------------------------------------------ src/jit.rs: which encoders each ALU opcode uses
+
+XI_OF = {'emit_alu32': ('XAlu 0', 3), 'emit_alu64': ('XAlu 1', 3), 'emit_alu32_imm32': ('XAluI32 0', 4), 'emit_alu64_imm32': ('XAluI32 1', 4),
+         'emit_alu32_imm8': ('XAluI8 0', 4), 'emit_alu64_imm8': ('XAluI8 1', 4), 'emit_mov': ('XAlu 1 137', 2),
+         'emit_load_imm': ('XLoadImm', 2)}
+
+
+def gen_jitarms(src_dir):
+    env, _ = U.read_consts(src_dir)
+    toks = U.load(src_dir, 'jit.rs')
+    consts = {}
+    for name, ty, e_, line in R.consts(toks):
+        try:
+            consts[name] = U.eval_const(e_, {})
+        except Unsupported:
+            pass
+    out = [U.HDR % 'src/jit.rs (jit_compile: the encoder calls made for each ALU opcode that does not go through emit_muldivmod)',
+           "From RbpfV Require Import Ebpf X86Sem.\nFrom RbpfV.gen Require Import Opcodes.\n\n"]
+    _, fbody = R.parse_fn(toks, 'jit_compile')
+    arms = []
+
+    def walk(e):
+        if isinstance(e, tuple) and e and e[0] == 'match' and show(e[1]) == 'insn.opc' and len(e[2]) > 50:
+            arms.extend(e[2])
+            return
+        if isinstance(e, (tuple, list)):
+            for x in e:
+                walk(x)
+    walk(fbody)
+
+    def arg(e):
+        while e[0] == 'paren':
+            e = e[1]
+        if e[0] == 'num':
+            return str(e[1])
+        if e[0] == 'path':
+            if e[1] in ('src', 'dst'):
+                return e[1]
+            if e[1] in consts:
+                return str(consts[e[1]])
+        if e[0] == 'field' and show(e[1]) == 'insn' and e[2] in ('imm', 'off'):
+            return '(%s insn)' % e[2]
+        if e[0] == 'as':
+            tn = R.tyname(e[2])
+            m = {'i8': 'I8', 'i32': 'I32', 'u8': 'U8', 'i64': 'I64'}
+            if tn in m:
+                return '(cast %s %s)' % (m[tn], arg(e[1]))
+        raise Unsupported("jit arm argument %s" % show(e)[:40])
+
+    def call(e):
+        if e[0] == 'mcall' and show(e[1]) == 'self' and e[2] in XI_OF and show(e[3][0]) == 'mem':
+            ctor, n = XI_OF[e[2]]
+            if len(e[3]) - 1 != n:
+                raise Unsupported("%s arity" % e[2])
+            return '%s %s' % (ctor, ' '.join(arg(a) for a in e[3][1:]))
+        raise Unsupported("jit arm statement %s" % show(e)[:50])
+    names = []
+    for pat, guard, body, ln, attrs in arms:
+        alts = pat[1] if pat[0] == 'por' else [pat]
+        for a in alts:
+            if a[0] != 'ppath':
+                continue
+            n = a[1].split('::')[-1]
+            if n not in env or (env[n][1] & 7) not in (4, 7) or n in ('LE', 'BE'):
+                continue
+            txt = show(body)
+            if 'emit_muldivmod' in txt:
+                continue
+            if len(alts) != 1:
+                raise Unsupported("ALU opcode %s shares an arm" % n)
+            if body[0] == 'block':
+                calls = [call(st[1]) for st in body[1]]
+            else:
+                calls = [call(body)]
+            out.append("Definition gen_jit_arm_%s (insn : insn) (dst src : Z) : list xi :=\n  [%s].\n\n" % (n, '; '.join(calls)))
+            names.append(n)
+    if len(names) != 38:
+        raise Unsupported("%d ALU arms recognised (38 expected): %s" % (len(names), names))
+    chain = '[]'
+    for n in reversed(names):
+        chain = 'if sel_ =? %s then gen_jit_arm_%s insn dst src else\n  %s' % (n, n, chain)
+    out.append("Definition gen_jit_alu (sel_ : Z) (insn : insn) (dst src : Z) : list xi :=\n  %s.\n" % chain)
+    return ''.join(out)
